@@ -242,6 +242,8 @@ def obligations():
                     bound="1..2 streams; temperatures and contributions symbolic, heat-capacity flow rates from {1, 3} kW/K",
                     doc="direct-integration record: Qh - Qc = net duty, Qr = hot duty - Qc, all >= 0 (the C01 slice clauses)")
     obs = split(di, streams=[1]) + split(di, streams=[2], s0_dir=D, s1_dir=D)
+    ro = [o for o in C01.obligations() if o.name == "C01.di.readout"][0]
+    obs.append(Obligation("C02.di.readout", ro.fn, kind=ro.kind, functions=ro.functions, stubs=ro.stubs, expect=ro.expect, doc="(shared with C01) " + ro.doc))
     obs += [
         Obligation("C02.tz.sum.b", ob_tz_sum, kind="bounded", bound="1..3 zones x 0..2 hot x 0..2 cold utilities, every target and duty symbolic (loops unrolled)",
                    functions=[ii._sum_subzone_targets, ii._reset_utility_heat_flows, ii._set_sites_targets, Stream.set_heat_flow], max_paths=100000,
